@@ -210,3 +210,98 @@ def check_capacity_role(facts, rep, crate, rid, elem_substr, want_role, what):
                     "the %s is sized from %s instead of %s: the configured size has no effect and items are dropped / senders "
                     "blocked at a different fill level" % (what, roles, want_role))
     rep.floor(rid, "%s constructions" % what, k, 1)
+
+
+def refusal_sources(facts, crate):
+    """Functions whose `Poll<Option<()>>` result says "the stream is closed for writing" with None: the credit take and
+    every function of that return type that calls one of them."""
+    takes = credit_take_bodies(facts, crate)
+    src = {b.dp: b for b in takes}
+    changed = True
+    while changed:
+        changed = False
+        for b in crate.bodies:
+            if b.dp in src or "Poll<core::option::Option<()>>" not in b.locals[0]["s"].replace("std::", "core::"):
+                continue
+            if any(callee(t) and ((callee(t).get("res") or callee(t)["dp"]) in src) for _, t in b.calls()):
+                src[b.dp] = b
+                changed = True
+    return src
+
+
+def check_refusal_is_broken_pipe(facts, rep, crate, rid):
+    """Every io-level write entry point maps a refused write (stream closed) to Err(BrokenPipe), never to Ok(n)."""
+    src = refusal_sources(facts, crate)
+    k = 0
+    for b in crate.bodies:
+        rt = b.locals[0]["s"].replace("std::", "core::")
+        if "Poll<core::result::Result<" not in rt or "io::Error" not in rt and "io::error::Error" not in rt:
+            continue
+        tr = None
+        for tc, t in b.calls():
+            c = callee(t)
+            if not c or (c.get("res") or c["dp"]) not in src:
+                continue
+            tr = tr or Tracer(facts, b)
+            rep.analysed(b)
+            where = "%s (%s)" % (loc_str(t["loc"]), b.path)
+            key = "refusal-is-broken-pipe/%s" % b.path.split("::{")[0]
+            seen, st = set(), [x for x in b.succ[tc] if not b.blocks[x]["cleanup"]]
+            decided = False
+            outs = []
+            while st:
+                x = st.pop()
+                if x in seen:
+                    continue
+                seen.add(x)
+                for s in b.blocks[x]["stmts"]:
+                    if decided and s["k"] == "Assign" and s["lhs"]["l"] == 0 and not s["lhs"].get("p") and s["rv"]["k"] == "Aggregate":
+                        outs.append((x, strip(tr.rvalue(s["rv"]))))
+                tt = b.term(x)
+                if decided and tt["k"] == "Call" and (tt.get("dest") or {}).get("l") == 0 and not (tt.get("dest") or {}).get("p"):
+                    outs.append((x, strip(tr.call_node(x, tt))))
+                if tt["k"] == "Return":
+                    continue
+                g = guard_at(facts, b, tr, x)
+                if g is not None and g.kind == "bool":
+                    g = as_variant_guard(g) or g
+                nxt = [y for y in b.succ[x] if not b.blocks[y]["cleanup"]]
+                if g is not None and g.kind == "discr" and derives_from_call(g.pred, tc):
+                    adt = g.adt or ""
+                    keep = []
+                    for y in nxt:
+                        vals = [v for sb, v in g.edges if sb == y]
+                        if adt.endswith("poll::Poll"):
+                            if vals and all(v == "Ready" for v in vals):
+                                keep.append(y)
+                        elif vals and all(v in ("None", "Break", "Err") for v in vals):
+                            keep.append(y)
+                            decided_here = True
+                    if not adt.endswith("poll::Poll") and keep:
+                        decided = True
+                    nxt = keep
+                st.extend(nxt)
+            if not decided:
+                rep.info("%s: the refusal edge of the credit take in %s is not a recognisable variant test; not decided" % (rid, b.path))
+                continue
+            k += 1
+            bad = None
+            for x, n in outs:
+                txt = fmt(n)
+                if n.kind == "agg" and n[2].endswith("Poll::Ready") and n[3]:
+                    inner = strip(n[3][0][1])
+                    if inner.kind == "agg" and inner[2].endswith("Result::Ok"):
+                        bad = (x, "returns Ok(..)")
+                    elif inner.kind == "agg" and inner[2].endswith("Result::Err") and "BrokenPipe" not in txt:
+                        bad = (x, "fails with an error other than BrokenPipe")
+                elif n.kind == "call" and n[6] == "from_residual" and "BrokenPipe" not in txt:
+                    bad = (x, "fails with an error other than BrokenPipe")
+            if bad:
+                rep.bad(rid, key, "%s (%s)" % (loc_str(b.term(bad[0])["loc"]), b.path),
+                        "a write refused because the stream is closed for writing (connection ended, peer reset, local shutdown) %s here: "
+                        "the caller never sees BrokenPipe; with Ok(0) a write loop spins forever on a dead stream" % bad[1])
+            elif outs:
+                rep.ok(rid, key, where, "refused write -> Err(BrokenPipe)")
+            else:
+                rep.bad(rid, key, where, "no return is reached on the refusal edge of the credit take")
+    rep.floor(rid, "write entry points that can be refused", k, 3 if "std" in crate.features else 1)
